@@ -431,4 +431,44 @@ theorem truncate_hfull_refuted : ¬ truncate_hfull_statement := by
       [(7, false)]).1 2).1.B 3 = none := by decide
   rw [this] at h2; cases h2
 
+-- non-vacuity of the remaining statements: their only hypothesis is `LedgerInv`, instantiated with the state after
+-- the trunk switch (main chain 3 → 2 → 0, side block 1); `confirm_inv_anc` instantiated at genesis
+example :
+    let l0 := genesis 0 [0]
+    let l1 := (confirm l0 1 0 [(1, true)]).1
+    let l2 := (confirm l1 2 0 [(2, true), (5, false)]).1
+    let l3 := (confirm l2 3 2 [(3, true), (1, false)]).1
+    (l3.root ∈ pathOf l3 l3.tip ∧ (pathOf l3 l3.tip).length = l3.trunkHeight + 1) ∧ pathOf l3 l3.tip = [3, 2, 0] ∧
+    (OnPath l3 2 ↔ 2 ∈ pathOf l3 l3.tip) ∧
+    (∀ b h, lookup l3.B b = some h → (h.inTrunk = true ↔ b ∈ pathOf l3 l3.tip)) ∧
+    (∀ b h, lookup l3.B b = some h → (b ∈ pathOf l3 l3.tip → h.next = lookup l3.ZH (h.height + 1)) ∧
+      (b ∉ pathOf l3 l3.tip → h.next = none)) ∧
+    (isTxInTrunk l3 1 = true ↔ ∃ b h, lookup l3.B b = some h ∧ b ∈ pathOf l3 l3.tip ∧ 1 ∈ h.txs) ∧
+    isTxInTrunk l3 1 = true ∧ lookup l3.C 1 = some 3 := by
+  have I0 := genesis_inv 0 [0]
+  have I1 := confirm_inv _ 1 0 [(1, true)] I0 (by decide) (by decide)
+  have I2 := confirm_inv _ 2 0 [(2, true), (5, false)] I1 (by decide) (by decide)
+  have I3 := confirm_inv _ 3 2 [(3, true), (1, false)] I2 (by decide) (by decide)
+  exact ⟨ledgerInv_path _ I3, by decide, onPath_iff_pathOf _ I3 2, ledgerInv_flag _ I3, ledgerInv_next _ I3,
+    isTxInTrunk_iff _ I3 1, by decide, by decide⟩
+
+example : LedgerInv (confirm (genesis 0 [0]) 1 0 [(1, true)]).1 := by
+  refine confirm_inv_anc _ 1 0 [(1, true)] (genesis_inv 0 [0]) ?_ ?_
+  · intro a ha hab sa t ht
+    obtain ⟨_, e⟩ := genesis_stored sa
+    subst e
+    simp only [List.map_cons, List.map_nil, List.mem_singleton] at ht
+    subst ht
+    decide
+  · intro t ht
+    have : lookup (genesis 0 [0]).C t = if t ∈ [0] then some 0 else none := lookup_map_const [0] 0 t
+    rw [this] at ht
+    by_cases e : t ∈ [0]
+    · rw [if_pos e] at ht; cases ht
+    · rw [if_neg e] at ht; cases ht
+
+example :
+    LedgerInv (confirm (genesis 0 [0]) 1 0 [(1, true)]).1 ∧ CStored (confirm (genesis 0 [0]) 1 0 [(1, true)]).1 :=
+  confirm_inv_cstored _ 1 0 [(1, true)] (genesis_inv 0 [0]) (genesis_cstored 0 [0]) (by decide)
+
 end XV.C04
